@@ -315,7 +315,7 @@ def _norm_body(h):
   return [ast.dump(Ren().visit(copy.deepcopy(s))) for s in h.body]
 
 
-@rule("R15.2", "C15", floor=9)
+@rule("R15.2", "C15", floor=12)
 def r15_2(ctx):
   """Compile errors become a python-compiler-error; nothing is shadowed."""
   mod = get_module(ctx, IO)
@@ -472,7 +472,7 @@ def _first_status_write(stmts, outname):
   return None, 0
 
 
-@rule("R15.3", "C15", floor=8)
+@rule("R15.3", "C15", floor=9)
 def r15_3(ctx):
   """Writer and reader of the compile sub-process agree."""
   wmod = get_module(ctx, COMPILE_BC)
@@ -1093,4 +1093,165 @@ def r15_9(ctx):
                 {"handler": sub + name, "line": target_fn.lineno})
 
 
-VARIANTS = []
+_ET = ERROR_TYPES
+
+VARIANTS = [
+    # -- R15.1
+    {"name": "delete-byte_END_SEND", "rule": "R15.1", "file": VM, "expect": "fire",
+     "old": "  def byte_END_SEND(self, state, op):",
+     "new": "  def _disabled_END_SEND(self, state, op):"},
+    {"name": "rename-byte_COPY", "rule": "R15.1", "file": VM, "expect": "fire",
+     "old": "  def byte_COPY(self, state, op):",
+     "new": "  def byte_COPY_ITEM(self, state, op):"},
+    {"name": "opcode-class-renamed", "rule": "R15.1", "file": OPC, "expect": "fire",
+     "old": "class END_SEND(Opcode):", "new": "class END_SEND_OP(Opcode):"},
+    {"name": "dispatch-prefix-typo", "rule": "R15.1", "file": VM, "expect": "fire",
+     "old": 'f"byte_{op.name}"', "new": 'f"bytes_{op.name}"'},
+    {"name": "versioned-class-gets-new-name", "rule": "R15.1", "expect": "fire",
+     "edits": [
+         (OPC, "      class YIELD_VALUE(Opcode):  # pylint: disable=redefined-outer-name",
+          "      class YIELD_VALUE_PRE312(Opcode):  # pylint: disable=redefined-outer-name"),
+         (OPC, "      return YIELD_VALUE\n", "      return YIELD_VALUE_PRE312\n")]},
+    {"name": "synthetic-handler-deleted", "rule": "R15.1", "file": VM, "expect": "fire",
+     "old": "  def byte_SETUP_EXCEPT_311(self, state, op):",
+     "new": "  def _setup_except_311(self, state, op):"},
+    {"name": "twin-handler-moved-to-mixin", "rule": "R15.1", "expect": "silent",
+     "edits": [
+         (VM, "  def byte_NOP(self, state, op):\n    return state\n\n", ""),
+         (VM, "class VirtualMachine:\n",
+          "class _NopMixin:\n\n  def byte_NOP(self, state, op):\n    return state\n\n\n"
+          "class VirtualMachine(_NopMixin):\n")]},
+    {"name": "twin-handler-alias", "rule": "R15.1", "file": VM, "expect": "silent",
+     "old": "  def byte_END_FOR(self, state, op):\n    # No-op in pytype. See comment in `byte_FOR_ITER` for details.\n    return state\n",
+     "new": "  byte_END_FOR = byte_NOP\n"},
+    # -- R15.2
+    {"name": "constant-error-handler-widened-to-Exception", "rule": "R15.2", "file": IO,
+     "expect": "fire", "old": "  except constant_folding.ConstantError as e:",
+     "new": "  except Exception as e:"},
+    {"name": "compile-error-attribute-typo", "rule": "R15.2", "file": IO, "expect": "fire",
+     "old": "compiler_error = (options.input, e.line, e.error)",
+     "new": "compiler_error = (options.input, e.lineno, e.error)"},
+    {"name": "triple-loses-filename", "rule": "R15.2", "file": IO, "expect": "fire",
+     "old": "compiler_error = (options.input, e.lineno, e.message)",
+     "new": "compiler_error = (e.lineno, e.message)"},
+    {"name": "usage-error-swallowed", "rule": "R15.2", "file": IO, "expect": "fire",
+     "old": "  except utils.UsageError:\n    raise\n  except pyc.CompileError as e:",
+     "new": "  except pyc.CompileError as e:"},
+    {"name": "syntax-error-handler-removed", "rule": "R15.2", "file": IO, "expect": "fire",
+     "old": "  except SyntaxError as e:\n    compiler_error = (options.input, e.lineno, e.msg)\n",
+     "new": ""},
+    {"name": "skipfile-shadowed-by-exception", "rule": "R15.2", "expect": "fire",
+     "edits": [
+         (IO, "  except directors.SkipFileError:\n    other_error_info = \"# skip-file found, file not analyzed\"\n", ""),
+         (IO, "      raise\n  else:\n    return AnalysisResult(ctx, ast, result)",
+          "      raise\n  except directors.SkipFileError:\n    other_error_info = \"# skip-file found, file not analyzed\"\n"
+          "  else:\n    return AnalysisResult(ctx, ast, result)")]},
+    {"name": "twin-syntaxerror-before-indentationerror", "rule": "R15.2", "expect": "silent",
+     "edits": [
+         (IO, "    compiler_error = (options.input, e.raw_line, e.message)\n  except SyntaxError as e:",
+          "    compiler_error = (options.input, e.raw_line, e.message)\n  except IndentationError as e:"),
+         (IO, "    compiler_error = (options.input, e.lineno, e.message)\n  except IndentationError as e:",
+          "    compiler_error = (options.input, e.lineno, e.message)\n  except SyntaxError as e:")]},
+    {"name": "twin-merged-tuple-handler", "rule": "R15.2", "expect": "silent",
+     "edits": [
+         (IO, "  except SyntaxError as e:\n    compiler_error = (options.input, e.lineno, e.msg)\n", ""),
+         (IO, "  except IndentationError as e:", "  except (IndentationError, SyntaxError) as e:")]},
+    # -- R15.3
+    {"name": "writer-error-status-2", "rule": "R15.3", "file": COMPILE_BC, "expect": "fire",
+     "old": 'output.write(b"\\1")', "new": 'output.write(b"\\2")'},
+    {"name": "reader-error-status-2", "rule": "R15.3", "file": COMPILER, "expect": "fire",
+     "old": "elif first_byte == 1:", "new": "elif first_byte == 2:"},
+    {"name": "writer-ok-status-as-text", "rule": "R15.3", "file": COMPILE_BC, "expect": "fire",
+     "old": 'output.write(b"\\0")', "new": 'output.write(b"0")'},
+    {"name": "regex-line-group-not-digits", "rule": "R15.3", "file": COMPILER, "expect": "fire",
+     "old": 'r"^(.*) \\((.*), line (\\d+)\\)$"', "new": 'r"^(.*) \\((.*), line (.*)\\)$"'},
+    {"name": "regex-colon-format", "rule": "R15.3", "file": COMPILER, "expect": "fire",
+     "old": 'r"^(.*) \\((.*), line (\\d+)\\)$"', "new": 'r"^(.*) \\((.*):(\\d+)\\)$"'},
+    {"name": "regex-groups-swapped-in-init", "rule": "R15.3", "file": COMPILER, "expect": "fire",
+     "old": "self.error = match.group(1)\n      self.filename = match.group(2)",
+     "new": "self.error = match.group(2)\n      self.filename = match.group(1)"},
+    {"name": "argv-mode-not-passed", "rule": "R15.3", "file": COMPILER, "expect": "fire",
+     "old": 'cmd = python_exe + ["-E", "-", fi.name, filename or fi.name, mode]',
+     "new": 'cmd = python_exe + ["-E", "-", fi.name, filename or fi.name]'},
+    {"name": "argv-main-expects-5", "rule": "R15.3", "file": COMPILE_BC, "expect": "fire",
+     "old": "if len(sys.argv) != 4:", "new": "if len(sys.argv) != 5:"},
+    {"name": "payload-repr-instead-of-str", "rule": "R15.3", "file": COMPILE_BC, "expect": "fire",
+     "old": 'output.write(str(err).encode("utf-8"))',
+     "new": 'output.write(repr(err).encode("utf-8"))'},
+    {"name": "twin-hex-escape-and-direct-subscript", "rule": "R15.3", "expect": "silent",
+     "edits": [
+         (COMPILE_BC, 'output.write(b"\\1")', 'output.write(b"\\x01")'),
+         (COMPILER, "  first_byte = bytecode[0]\n  if first_byte == 0:", "  if bytecode[0] == 0:"),
+         (COMPILER, "elif first_byte == 1:", "elif bytecode[0] == 1:")]},
+    # -- R15.4
+    {"name": "get_awaitable-reads-its-311-argument", "rule": "R15.4", "file": VM, "expect": "fire",
+     "old": '    """Implementation of the GET_AWAITABLE opcode."""\n    state, obj = state.pop()',
+     "new": '    """Implementation of the GET_AWAITABLE opcode."""\n    log.debug("where=%r", op.arg)\n    state, obj = state.pop()'},
+    {"name": "copy-loses-operand-slot", "rule": "R15.4", "file": OPC, "expect": "fire",
+     "old": "class COPY(OpcodeWithArg):\n  _FLAGS = HAS_ARGUMENT",
+     "new": "class COPY(Opcode):\n  _FLAGS = 0"},
+    {"name": "argless-handler-uses-closure-helper", "rule": "R15.4", "file": VM, "expect": "fire",
+     "old": "  def byte_PUSH_NULL(self, state, op):\n    return self._push_null(state)",
+     "new": "  def byte_PUSH_NULL(self, state, op):\n    vm_utils.load_closure_cell(state, op, False, self.ctx)\n    return self._push_null(state)"},
+    {"name": "twin-guarded-helper-read", "rule": "R15.4", "file": VM, "expect": "silent",
+     "old": "  def byte_PUSH_NULL(self, state, op):\n    return self._push_null(state)",
+     "new": "  def byte_PUSH_NULL(self, state, op):\n    assert not self.is_setup_except(op)\n    return self._push_null(state)"},
+    {"name": "twin-resume-drops-unused-operand", "rule": "R15.4", "file": OPC, "expect": "silent",
+     "old": "class RESUME(OpcodeWithArg):\n  _FLAGS = HAS_ARGUMENT",
+     "new": "class RESUME(Opcode):\n  _FLAGS = 0"},
+    # -- R15.5
+    {"name": "duplicate-keyword-arm-removed", "rule": "R15.5", "file": ERRORS, "expect": "fire",
+     "old": "    elif isinstance(error, error_types.DuplicateKeyword):\n      self.duplicate_keyword(stack, error.name, error.bad_call, error.duplicate)\n",
+     "new": ""},
+    {"name": "new-binder-error-without-arm", "rule": "R15.5", "file": _ET, "expect": "fire",
+     "old": "class WrongArgCount(InvalidParameters):",
+     "new": "class StarArgsMismatch(FailedFunctionCall):\n  \"\"\"New error.\"\"\"\n\n\nclass WrongArgCount(InvalidParameters):"},
+    {"name": "twin-subclass-covered-by-base-arm", "rule": "R15.5", "file": _ET, "expect": "silent",
+     "old": "class WrongArgCount(InvalidParameters):",
+     "new": "class TooManyPositionals(WrongArgCount):\n  \"\"\"Refinement.\"\"\"\n\n\nclass WrongArgCount(InvalidParameters):"},
+    # -- R15.6
+    {"name": "swap-wrong-base", "rule": "R15.6", "file": OPC, "expect": "fire",
+     "old": "class SWAP(OpcodeWithArg):", "new": "class SWAP(Opcode):"},
+    {"name": "resume-flag-dropped-base-kept", "rule": "R15.6", "file": OPC, "expect": "fire",
+     "old": "class RESUME(OpcodeWithArg):\n  _FLAGS = HAS_ARGUMENT",
+     "new": "class RESUME(OpcodeWithArg):\n  _FLAGS = 0"},
+    {"name": "synthetic-pop_block-gets-operands", "rule": "R15.6", "file": OPC, "expect": "fire",
+     "old": "pop_op = POP_BLOCK(-1, end_op.line, end_op.endline, end_op.col, end_op.endcol)",
+     "new": "pop_op = POP_BLOCK(-1, end_op.line, end_op.endline, end_op.col, end_op.endcol, -1, -1)"},
+    {"name": "make_opcodes-branches-on-has_nargs", "rule": "R15.6", "file": OPC, "expect": "fire",
+     "old": "    if cls.has_argument():", "new": "    if cls.has_nargs():"},
+    {"name": "has_argument-tests-wrong-constant", "rule": "R15.6", "file": OPC, "expect": "fire",
+     "old": "    return bool(cls._FLAGS & HAS_ARGUMENT)", "new": "    return bool(cls._FLAGS & HAS_NARGS)"},
+    {"name": "twin-flags-reordered", "rule": "R15.6", "file": OPC, "expect": "silent",
+     "old": "_FLAGS = HAS_ARGUMENT | HAS_CONST | NO_NEXT", "new": "_FLAGS = NO_NEXT | HAS_CONST | HAS_ARGUMENT"},
+    # -- R15.7
+    {"name": "guard-names-argless-class", "rule": "R15.7", "file": PROCESS_BLOCKS, "expect": "fire",
+     "old": "if isinstance(op, opcodes.LOAD_NAME) and op.argval == \"__name__\":",
+     "new": "if isinstance(op, opcodes.LOAD_BUILD_CLASS) and op.argval == \"__name__\":"},
+    {"name": "build_string-loses-operand-slot", "rule": "R15.7", "file": OPC, "expect": "fire",
+     "old": "class BUILD_STRING(OpcodeWithArg):  # Arg: Number of items\n  _FLAGS = HAS_ARGUMENT",
+     "new": "class BUILD_STRING(Opcode):  # Arg: Number of items\n  _FLAGS = 0"},
+    {"name": "twin-guard-with-tuple", "rule": "R15.7", "file": PROCESS_BLOCKS, "expect": "silent",
+     "old": "if isinstance(op, opcodes.LOAD_NAME) and op.argval == \"__name__\":",
+     "new": "if isinstance(op, (opcodes.LOAD_NAME, opcodes.LOAD_GLOBAL)) and op.argval == \"__name__\":"},
+    # -- R15.8
+    {"name": "end_send-forgets-return", "rule": "R15.8", "file": VM, "expect": "fire",
+     "old": "    # Implements `del STACK[-2]`. Used to clean up when a generator exits.\n    state, top = state.pop()\n    return state.set_top(top)",
+     "new": "    # Implements `del STACK[-2]`. Used to clean up when a generator exits.\n    state, top = state.pop()\n    state.set_top(top)"},
+    {"name": "cache-handler-wrong-arity", "rule": "R15.8", "file": VM, "expect": "fire",
+     "old": "  def byte_CACHE(self, state, op):\n    # No stack or type effects\n    del op\n",
+     "new": "  def byte_CACHE(self, state):\n    # No stack or type effects\n"},
+    {"name": "twin-both-branches-return", "rule": "R15.8", "file": VM, "expect": "silent",
+     "old": "  def byte_NOP(self, state, op):\n    return state\n",
+     "new": "  def byte_NOP(self, state, op):\n    if op.line:\n      return state\n    else:\n      return state.forward_cfg_node(\"nop\")\n"},
+    # -- R15.9
+    {"name": "intrinsic-handler-renamed", "rule": "R15.9", "file": VM, "expect": "fire",
+     "old": "  def byte_INTRINSIC_TYPEALIAS(self, state):",
+     "new": "  def byte_INTRINSIC_TYPE_ALIAS(self, state):"},
+    {"name": "intrinsic-handler-takes-op", "rule": "R15.9", "file": VM, "expect": "fire",
+     "old": "  def byte_INTRINSIC_PRINT(self, state):",
+     "new": "  def byte_INTRINSIC_PRINT(self, state, op):"},
+    {"name": "twin-intrinsic-default-argument", "rule": "R15.9", "file": VM, "expect": "silent",
+     "old": "  def byte_INTRINSIC_PRINT(self, state):",
+     "new": "  def byte_INTRINSIC_PRINT(self, state, op=None):"},
+]
